@@ -142,6 +142,10 @@ func execPrepare(dir string, in execIn) (path string, beh string, ck int, cleanu
 	case "trapsleep": // ignores TERM/INT/HUP; only SIGKILL ends it
 		write("#!/bin/sh\ntrap '' TERM INT HUP\n"+execPrintCmd(in.Out)+"exec sleep "+execSecs(in.Sleep)+"\n", 0o755)
 		beh = proc(cRec("ExitCode", "0"), at(in.Sleep), at(0))
+	case "moded": // behaviour chosen per call by the content of <path>.mode (driver exechist): ok | fail | garbage | sleep
+		write("#!/bin/sh\ncase \"$(cat "+path+".mode 2>/dev/null)\" in\nfail) exit 1;;\ngarbage) echo abc;;\nsleep) exec sleep "+execSecs(in.Sleep)+";;\n*) echo 42;;\nesac\n", 0o755)
+		in.Out = execRLE([]byte("42\n"))
+		beh = proc(cRec("ExitCode", "0"), at(0), at(0))
 	case "flood": // prints until killed (shell builtins only: no descendant)
 		write("#!/bin/sh\nwhile :; do echo 1234567890; done\n", 0o755)
 		in.Out = nil
@@ -243,6 +247,9 @@ type execPrepared struct {
 	hook      *int
 	// optional extra liveness check evaluated right after the call (driver exechist: the concurrent logger)
 	extraHang func() string
+	// driver exechist: the ONE CmdSensor / CmdFan object all calls of a history go through (nil: a fresh one per call)
+	sensorObj *sensors.CmdSensor
+	fanObj    *fans.CmdFan
 }
 
 func execPrep(workDir string, n int, in execIn) execPrepared {
@@ -306,15 +313,21 @@ func execRunOnce(pr execPrepared, in execIn) (execObs, string) {
 			case 0:
 				text, err = util.SafeCmdExecution(path, []string{"a", "b"}, time.Duration(in.T)*time.Millisecond)
 			case 1:
-				s := &sensors.CmdSensor{Config: configuration.SensorConfig{ID: "s", Cmd: &configuration.CmdSensorConfig{Exec: path}}}
+				s := pr.sensorObj
+				if s == nil {
+					s = &sensors.CmdSensor{Config: configuration.SensorConfig{ID: "s", Cmd: &configuration.CmdSensorConfig{Exec: path}}}
+				}
 				sensorAfter = s
 				fval, err = s.GetValue()
 			default:
-				f := &fans.CmdFan{Config: configuration.FanConfig{ID: "f", Cmd: &configuration.CmdFanConfig{
-					SetPwm: &configuration.ExecConfig{Exec: path, Args: []string{"%pwm%"}},
-					GetPwm: &configuration.ExecConfig{Exec: path},
-					GetRpm: &configuration.ExecConfig{Exec: path},
-				}}}
+				f := pr.fanObj
+				if f == nil {
+					f = &fans.CmdFan{Config: configuration.FanConfig{ID: "f", Cmd: &configuration.CmdFanConfig{
+						SetPwm: &configuration.ExecConfig{Exec: path, Args: []string{"%pwm%"}},
+						GetPwm: &configuration.ExecConfig{Exec: path},
+						GetRpm: &configuration.ExecConfig{Exec: path},
+					}}}
+				}
 				switch in.Api {
 				case 2:
 					ival, err = f.GetPwm()
